@@ -69,6 +69,74 @@ class CleanSem(Sem):
         self.heads[st] = (head, back_states)
 
 
+class _ReplySem(Sem):
+    """state: set of {'idle' (no request run), 'pending' (request run, reply not sent), 'replied'} over the paths reaching here"""
+    base_exc_escapes = False
+    n_req = 0
+
+    def join2(self, a, b):
+        return a | b
+
+    def atomic(self, st):
+        cs = calls_in(st)
+        return bool(cs) and all((dotted(c.func) or "").startswith(("logging.", "traceback.")) for c in cs)
+
+    def transfer(self, st, state):
+        for c in calls_in(st):
+            if callee_name(c) == "run_command_on_klongloop":
+                self.n_req += 1
+                state = frozenset(["pending"])
+            elif callee_name(c) == "stream_send_msg":
+                state = frozenset("replied" if x == "pending" else x for x in state)
+        return state
+
+
+class _GateSem(Sem):
+    """state: (gate attribute is None, pending table flushed while the gate was open)"""
+    base_exc_escapes = False
+
+    def __init__(self, gate, flush):
+        self.gate, self.flush = gate, flush
+        self.bad_awaits = []
+
+    def join2(self, a, b):
+        return (a[0] and b[0], a[1] or b[1])
+
+    def atomic(self, st):
+        cs = calls_in(st)
+        return not cs or all((dotted(c.func) or "").startswith(("logging.", "traceback.")) or
+                             (isinstance(c.func, ast.Attribute) and c.func.attr == self.flush) for c in cs)
+
+    def _scan(self, node, state):
+        closed, flushed = state
+        if flushed and not closed:
+            for n in ([node] if isinstance(node, ast.Await) else []) + [x for x in walk_local(node) if isinstance(x, ast.Await)]:
+                if n not in self.bad_awaits:
+                    self.bad_awaits.append(n)
+        return state
+
+    def test_transfer(self, test, state):
+        return self._scan(test, state)
+
+    def transfer(self, st, state):
+        state = self._scan(st, state)
+        closed, flushed = state
+        if isinstance(st, ast.Assign):
+            for t in st.targets:
+                elts = t.elts if isinstance(t, (ast.Tuple, ast.List)) else [t]
+                vals = st.value.elts if isinstance(t, (ast.Tuple, ast.List)) and isinstance(st.value, (ast.Tuple, ast.List)) and len(st.value.elts) == len(elts) else [st.value] * len(elts)
+                for e, v in zip(elts, vals):
+                    if dotted(e) == self.gate:
+                        if isinstance(v, ast.Constant) and v.value is None:
+                            closed, flushed = True, False
+                        else:
+                            closed, flushed = False, False
+        for c in calls_in(st):
+            if isinstance(c.func, ast.Attribute) and c.func.attr == self.flush:
+                flushed = not closed
+        return (closed, flushed)
+
+
 def check(ctx):
     repo = ctx.repo
     cg = CallGraph(repo)
@@ -81,6 +149,8 @@ def check(ctx):
     ctx.rule("C14-R6", "the reply to a remote command is sent with the id of the request it answers")
     ctx.rule("C14-R7", "server side: the result future is completed exactly once on every path of the command coroutine, exception edges included")
     ctx.rule("C14-R8", "thread ownership: the pending table is mutated only in io-loop context (coroutines, and synchronous helpers called only from them)")
+    ctx.rule("C14-R9", "reply-or-exit: in the listener, once a request has been handed to the interpreter every normal return has sent the reply; a failure to reply leaves the listener by exception (the connection is dropped, the peer's call fails)")
+    ctx.rule("C14-R10", "gate: the registering coroutine sends through the stream attribute read on the io loop at send time; every function that fails the pending calls has reset that attribute before, or resets it afterwards with no suspension point in between, so no call can register after the table was flushed")
     ctx.trust("Future.set_exception(None) raises TypeError", "a future completed twice raises InvalidStateError", "coroutines scheduled on the io loop run on its thread")
 
     run = repo.fn(f"{IPC}:NetworkClient._run")
@@ -247,12 +317,65 @@ def check(ctx):
             ctx.ob("C14-R8", call.fq, "the registration runs in io-loop context (inside the coroutine handed to run_coroutine_threadsafe)", isinstance(co, ast.AsyncFunctionDef), node=r,
                    construct="registration on the io loop", msg="the pending table is written from the caller's thread while the io loop iterates/pops it: `dictionary changed size during iteration` inside the cleanup leaves callers waiting")
         # closed connection raises first
-        first = [s for s in call.node.body if not (isinstance(s, ast.Expr) and isinstance(s.value, ast.Constant))][0]
-        ok = isinstance(first, ast.If) and "is_open" in src(first.test) and always_exits(first.body) and any(isinstance(n, ast.Raise) for n in first.body)
-        ctx.ob("C14-R5", call.fq, "a call on a connection that is not open raises before anything is registered or sent", ok, node=first, construct="is_open guard raises first")
         rct = [c for c in calls_in(call.node) if callee_name(c) == "run_coroutine_threadsafe"]
+        # the hand-over to the io loop is dominated by a positive is_open() fact (an earlier `if not self.is_open(): raise`)
+        ok = bool(rct) and all(any(pol and isinstance(e, ast.Call) and isinstance(e.func, ast.Attribute) and e.func.attr == "is_open" and dotted(e.func.value) == "self"
+                                   for e, pol in atoms_at(c, call.node)) for c in rct)
+        ctx.ob("C14-R5", call.fq, "a call on a connection that is not open raises before anything is registered or sent", ok, node=rct[0] if rct else call.node, construct="is_open guard raises first")
         ok = len(rct) == 1 and isinstance(rct[0]._parent, ast.Attribute) and rct[0]._parent.attr == "result" and len(rct[0].args) == 2 and dotted(rct[0].args[1]) == "self.ioloop"
         ctx.ob("C14-R5", call.fq, "the coroutine is run on the io loop and its result (or exception) is returned to the caller", ok, node=call.node, construct="run_coroutine_threadsafe(...).result()")
+
+
+    # ---- R9 reply-or-exit
+    ctx.instance("C14-R9", lst.fq)
+    rsem = _ReplySem()
+    rex = rsem.run(lst.node, frozenset(["idle"]))
+    badr = [x for x in rex if x.kind == "return" and "pending" in x.state]
+    ctx.ob("C14-R9", lst.fq, f"every normal return of the listener that ran a request has sent its reply ({sum(1 for x in rex if x.kind == 'return')} returns)", not badr,
+           node=badr[0].node if badr else lst.node, construct="request without reply or exit",
+           msg=f"the listener can return normally (line {badr[0].line if badr else 0}) after running a request without having sent the reply: the connection stays up and the peer's call waits forever",
+           path=f"entry {lst.fq} -> run request -> return@{badr[0].line if badr else 0}")
+    ctx.control("C14-R9", "the listener runs requests through run_command_on_klongloop", rsem.n_req >= 1)
+
+    # ---- R10 gate
+    gate = None
+    for r in [n for n in ast.walk(call.node) if isinstance(n, ast.Assign) and any(isinstance(t, ast.Subscript) and dotted(t.value) == TABLE for t in n.targets)]:
+        co = r
+        while co is not None and not isinstance(co, FUNC):
+            co = co._parent
+        for c in [c for c in ast.walk(co) if isinstance(c, ast.Call) and callee_name(c) == "stream_send_msg"]:
+            ctx.instance("C14-R10", call.fq, "send stream")
+            a0 = c.args[0] if c.args else None
+            d = dotted(a0) if a0 is not None else None
+            ok = bool(d) and d.startswith("self.") and d.count(".") == 1
+            ctx.ob("C14-R10", call.fq, "the registering coroutine sends through self.<stream>, read on the io loop at send time", ok, node=c, construct="send stream is read at send time",
+                   msg=f"the frame is sent through `{src(a0) if a0 is not None else '?'}`, a value captured before the coroutine runs: after the listener has exited (and flushed the pending table) the call still writes to the old stream, registers its future and waits forever")
+            if ok:
+                gate = d
+    if gate is None:
+        if not any(f.rule == "C14-R10" for f in ctx.findings):
+            ctx.error("C14-R10: stream attribute of the registering coroutine not identified")
+    else:
+        ctx.note("gate_attribute", gate)
+        n_fl = 0
+        for f in m.funcs.values():
+            if f.cls != "NetworkClient" or f is failall:
+                continue
+            if not any(isinstance(c.func, ast.Attribute) and c.func.attr == failall.name for c in calls_in(f.node)):
+                continue
+            n_fl += 1
+            ctx.instance("C14-R10", f.fq, "flush/gate order")
+            gs = _GateSem(gate, failall.name)
+            gex = gs.run(f.node, (False, False))
+            for aw in gs.bad_awaits:
+                ctx.ob("C14-R10", f.fq, f"no suspension point between failing the pending calls and resetting {gate}", False, node=aw, construct=f"await between flush and reset of {gate}",
+                       msg=f"{f.name} awaits after the pending table was flushed while {gate} is still set: a call issued during that await is written to the dead stream, registers a future nobody will complete and waits forever",
+                       path=f"entry {f.fq} -> {failall.name} -> await@{aw.lineno}")
+            openx = [x for x in gex if x.state[1] and not x.state[0]]
+            ctx.ob("C14-R10", f.fq, f"{gate} is reset on every exit that flushed the pending table", not openx, node=openx[0].node if openx else f.node,
+                   construct=f"{gate} still set after the flush",
+                   msg=f"{f.name} can end with the pending table flushed and {gate} still set: later calls are written to the dead stream and wait forever")
+        ctx.floor("C14-R10", "functions that flush the pending table", n_fl, 1)
 
     # ---- R7
     srv = repo.fn(f"{IPC}:execute_server_command")
@@ -360,6 +483,17 @@ MUTATION_SCOPE = ['sys_fn_ipc:NetworkClient._run',
                   'sys_fn_ipc:execute_server_command']
 
 SEEDS = [
+    Seed("send-through-captured-writer", "fault", IPC, "        msg_id = uuid.uuid4()\n", "        msg_id = uuid.uuid4()\n        w = self.writer\n",
+         more=[(IPC, "            await stream_send_msg(self.writer, msg_id, msg)\n            return await future", "            await stream_send_msg(w, msg_id, msg)\n            return await future")], rule="C14-R10"),
+    Seed("reset-writer-after-on-close", "fault", IPC, "                self.writer = None\n                self.reader = None\n                self._cleanup_pending_responses(close_exception)\n", "                self._cleanup_pending_responses(close_exception)\n",
+         more=[(IPC, "                        logging.warning(f\"error while running on_close handler: {e}\")\n", "                        logging.warning(f\"error while running on_close handler: {e}\")\n                self.writer = None\n                self.reader = None\n")], rule="C14-R10"),
+    Seed("writer-never-reset", "fault", IPC, "                self.writer = None\n                self.reader = None\n                self._cleanup_pending_responses(close_exception)\n", "                self._cleanup_pending_responses(close_exception)\n", rule="C14-R10"),
+    Seed("reply-failure-swallowed", "fault", IPC, "                await stream_send_msg(self.writer, msg_id, response)\n",
+         "                try:\n                    await stream_send_msg(self.writer, msg_id, response)\n                except (pickle.PicklingError, TypeError) as e:\n                    logging.warning(f\"cannot serialise response: {e}\")\n", rule="C14-R9"),
+    Seed("reply-only-when-not-none", "fault", IPC, "                await stream_send_msg(self.writer, msg_id, response)\n",
+         "                if response is not None:\n                    await stream_send_msg(self.writer, msg_id, response)\n", rule="C14-R9"),
+    Seed("refactor-flush-then-reset", "refactor", IPC, "                self.writer = None\n                self.reader = None\n                self._cleanup_pending_responses(close_exception)\n", "                self._cleanup_pending_responses(close_exception)\n                self.writer = None\n                self.reader = None\n"),
+    Seed("refactor-log-before-guard", "refactor", IPC, "        if not self.is_open():\n            raise KlongException(\"connection not established\")", "        logging.debug(\"remote call\")\n        if not self.is_open():\n            raise KlongException(\"connection not established\")"),
     Seed("cleanup-out-of-finally", "fault", IPC,
          "            finally:\n                self.writer = None\n                self.reader = None\n                self._cleanup_pending_responses(close_exception)\n                if on_close is not None:",
          "            else:\n                self._cleanup_pending_responses(close_exception)\n            finally:\n                self.writer = None\n                self.reader = None\n                if on_close is not None:", rule="C14-R1"),
